@@ -14,7 +14,7 @@ LEVEL = "exploration"
 SHARDS = {"quick": 4, "thorough": 16}
 THOROUGH_DEPTH = 6      # thorough tier = this many times the base thorough budget (VERIF_DEPTH overrides)
 TIME_CAP = {"quick": 200, "thorough": 2400}
-KINDS = ["random", "consistent", "moving", "level", "inverted", "vertical", "pure-pitch", "pure-roll", "sparse", "integer"]
+KINDS = ["random", "consistent", "moving", "level", "inverted", "vertical", "pure-pitch", "pure-roll", "sparse", "integer", "near-special"]
 REGIONS = {"hist:" + k: 12 for k in KINDS}
 TOL_UNIT = 1e-9
 
@@ -161,6 +161,10 @@ def make_history(rng, kind, n, psi=None):
         elif kind == "vertical":
             ax = [[1.0, 0, 0], [0, 1.0, 0]][int(rng.integers(2))]
             q = rq.qmul(rq.axang2q([0, 0, 1.0], psi), rq.axang2q(ax, float(rng.choice([-1, 1])) * np.pi / 2))
+        elif kind == "near-special":                   # a canonical pose (level at a cardinal heading, inverted, vertical) turned by 1e-9 .. 1e-3 rad
+            base = [rq.axang2q([0, 0, 1.0], float(rng.choice([0.0, np.pi / 2, np.pi, -np.pi / 2]))), rq.qmul(rq.axang2q([0, 0, 1.0], psi), rq.axang2q([1.0, 0, 0], np.pi)),
+                    rq.qmul(rq.axang2q([0, 0, 1.0], psi), rq.axang2q([0, 1.0, 0], float(rng.choice([-1, 1])) * np.pi / 2))][int(rng.integers(3))]
+            q = rq.qnormalize(rq.qmul(base, rq.axang2q(gens.axis(rng), gens.logu(rng, 1e-9, 1e-3))))
         else:
             q = gens.unit(rng)
         R = rq.refR(q)
@@ -255,18 +259,19 @@ def generate(rng, tier, shard, nshards):
 
 
 def pose_class(a, m, needs):
-    """Mechanism label of one sample: which exact (measure-zero) coincidences it has.  'generic' = none."""
+    """Mechanism label of one sample: which (near-)exact coincidences it has - a component smaller than 1e-7 of the largest one (the closed
+    forms that are singular AT a canonical pose lose everything to rounding within ~1e-8 rad of it).  'generic' = none."""
     tags = []
     a = np.asarray(a, float)
     if "a" in needs:
-        nz = np.abs(a) > 1e-9 * np.abs(a).max()
+        nz = np.abs(a) > 1e-7 * np.abs(a).max()
         if nz.sum() == 1:
             tags.append("acc-level" if (nz[2] and a[2] > 0) else ("acc-inverted" if nz[2] else "acc-along-x/y"))
         elif nz.sum() == 2:
             tags.append("acc-zero-component")
     if "m" in needs and m is not None:
         m = np.asarray(m, float)
-        if (np.abs(m) <= 1e-9 * np.abs(m).max()).any():
+        if (np.abs(m) <= 1e-7 * np.abs(m).max()).any():
             tags.append("mag-zero-component")
     return "pose:special(" + "+".join(tags) + ")" if tags else "pose:generic"
 
